@@ -273,6 +273,21 @@ def reconn_cases(chk, eng, pid, variants, reps):
             chk.violation(what + ": " + short(im, 200), dict(case=c, impl=short(im)))
 
 
+def reset_cases(chk, eng, reps):
+    """real sockets: two requests outstanding, the peer goes away without answering (RST / FIN / half-close), plain TCP and TLS"""
+    import checks_net
+    cases = [f"CLRST {tls} {how}" for tls in (0, 1) for how in ("reset", "close", "half") for _ in range(reps)]
+    impl = core.run_sharded([eng.harness, "codec"], eng.prelude, cases, shards=min(8, len(cases)), timeout=300, env=checks_net.NET_ENV)
+    for c, im in zip(cases, impl):
+        chk.case(c + im, True)
+        chk.validated += 1
+        chk.count("peer-gone:" + ("tls:" if c.split()[1] == "1" else "plain:") + c.split()[2])
+        f = dict(x.split("=", 1) for x in im.split()[1:] if "=" in x) if im.startswith("CLRST") else {}
+        if not (f.get("f1") == "err" and f.get("f2") == "err" and f.get("f3") in ("senderr", "futerr")):
+            chk.violation("over a real " + ("TLS" if c.split()[1] == "1" else "TCP") + f" connection whose peer went away ({c.split()[2]}) with two requests outstanding, a response future "
+                          "was left pending (or a later send neither failed nor yielded a future that fails): " + short(im, 200), dict(case=c, impl=short(im)))
+
+
 def check_C11(chk, tier, seed):
     rng = Rng(seed).fork("C11")
     eng = engine_codec.setup(chk, rng, need_limit=False)
@@ -683,6 +698,7 @@ def check_C12(chk, tier, seed):
                               + ("a response future is left pending" if "PENDING" in ri and "PENDING" not in impl[i] else "the observation differs"),
                               dict(case=lines[i], impl=short(ri), dev_profile=short(impl[i])))
     reconn_cases(chk, eng, "C12", ["overlap", "failed", "tlsfail"], 2 if tier == "quick" else 10)
+    reset_cases(chk, eng, 1 if tier == "quick" else 6)
     chk.rule = ("1..4 outstanding requests x every subset of answers already delivered x {EOF, reset, undecodable octets, unknown AVP}; the answer stream cut at "
                 f"EVERY octet offset inside a pending answer; {nrand} random histories with repeated ids (superseded waiters), unmatched answers, answers racing the "
                 "write, sends attempted after the reader stopped, bursts of 70-300 sends racing the reader's shutdown, several connections of one client object (connect() again, also failing), sends whose write fails, futures dropped by the caller, idle periods and split answers with gaps in "
